@@ -214,11 +214,39 @@ class Gen(object):
             return g(w) + [[r.choice(["simp", "simp", "simpb"])]]
         return self.leaf(w)
 
+    RAWABLE = ("add", "sub", "mul", "pow", "div", "mod", "and", "or", "xor", "shl", "shr", "asr", "eq", "ne", "lt", "le",
+               "gt", "ge", "ltu", "geu", "ror", "rol")
+
+    def rawify(self, s, p):
+        """turn each node, with probability p, into the RAW constructor call (op(sym,l,r), uop(sym,r), slc(x,pos,size),
+        comp + __setitem__) instead of the operator API: the tree is the same, but nothing is simplified at
+        construction, so `simplify` / `eval` meet shapes the API would already have folded (a shift by more
+        than the width, an operator on two constants, -(-x), a slice of a constant …)."""
+        r = self.r
+        out = []
+        for ins in s:
+            o = ins[0]
+            if p <= 0 or r.random() >= p:
+                out.append(ins)
+            elif o in self.RAWABLE:
+                out.append(["rawop", o])
+            elif o in ("ltuh", "geuh", "rorh", "rolh"):
+                out.append(["rawop", o[:-1]])
+            elif o in ("neg", "not"):
+                out.append(["rawuop", o])
+            elif o == "slice" and ins[2] > ins[1] >= 0:
+                out.append(["rawslc", ins[1], ins[2] - ins[1]])
+            elif o == "compose" and ins[1] >= 1:
+                out.append(["rawcomp", ins[1]])
+            else:
+                out.append(ins)
+        return out
+
     def script(self):
         w = self.r.choice(WIDTHS)
         d = self.r.randint(1, self.maxdepth)
         s = self.gen(w, d)
-        return s
+        return self.rawify(s, self.r.choice([0, 0, 0, 0.15, 0.5, 1.0]))
 
     def valuations(self, n=16):
         """n total constant valuations of the script's registers (boundary values first).
